@@ -117,3 +117,18 @@ Definition check_order (c : order_case) : N :=
        && option_eqb N.eqb (kget (d_mem s) okey) mem
        && option_eqb N.eqb (kget (replay (d_log s)) okey) rec
     then V_OK else V_MISMATCH.
+
+(* ---------------------------------------------------------------- prefix scans return exactly the keys with the prefix *)
+(* (prefix, every key in the store, what scan(prefix) returned) -- strings as UTF-8 byte lists, the
+   lists sorted bytewise by the harness *)
+Fixpoint bytes_prefix (p s : list N) : bool :=
+  match p, s with
+  | [], _ => true
+  | a :: p', b :: s' => N.eqb a b && bytes_prefix p' s'
+  | _ :: _, [] => false
+  end.
+Definition pscan_case := (list N * list (list N) * list (list N))%type.
+Definition check_pscan (c : pscan_case) : N :=
+  let '(prefix, keys, got) := c in
+  if list_eqb (list_eqb N.eqb) (filter (bytes_prefix prefix) keys) got then V_OK else V_VIOLATION.
+
